@@ -51,13 +51,16 @@ def gen_plan(rng, tier, i, seed):
             "shuffle": rng.choice([None, rng.randint(0, 10**6)]), "hide_index": rng.random() < 0.3,
             # a model parameter that has no business in the normalisation: the copy-number ceiling of the
             # structure model (the multiplied gene reads go well beyond it)
-            "cn_max": rng.choice([None, None, 3, 5, 8])}
+            "cn_max": rng.choice([None, None, 3, 5, 8]),
+            # the profile scan also asks for a region on a chromosome the file does not have
+            "absent_contig": rng.random() < 0.4}
 
 
 def execute(plan, runner, rundir):
     wdir = os.path.join(rundir, "world")
     man = runner.segment({"kind": "materialise", "hashseed": plan["write_hashseed"], "world": plan["world"],
-                          "samples": plan["samples"], "build": plan["build"], "dir": wdir})
+                          "samples": plan["samples"], "build": plan["build"], "dir": wdir,
+                          "absent_contig": plan.get("absent_contig")})
     res = runner.segment({"kind": "measure", "hashseed": plan["read_hashseed"], "worlddir": wdir, "man": man,
                           "rundir": rundir, "plan": {k: v for k, v in plan.items()}})
     return {"measure": res}
@@ -259,7 +262,8 @@ def run_segment(seg):
 
     if seg["kind"] == "materialise":
         man = O.materialise(seg["world"], seg["dir"], seg["samples"], build=seg["build"], profile_yaml=True,
-                            extra={"ref_softclip": 0.2, "ref_random_ins": 0.15, "ref_random_del": 0.15})
+                            extra={"ref_softclip": 0.2, "ref_random_ins": 0.15, "ref_random_del": 0.15,
+                                   "profile_absent_contig": bool(seg.get("absent_contig"))})
         return man
     streams.install_stream_seam()
     from aldy.gene import Gene
